@@ -388,11 +388,17 @@ protected:
     auto Q=NLME().Hessian();
     if (Q.num_nz_) {
       ++header_.num_nl_objs;                // STATS
-      for (auto i=Q.num_nz_; i--; ) {
-        assert(i<nlv_obj_.size());
-        nlv_obj_[Q.index_[i]] = true;
-        ++header_.num_nl_vars_in_objs;      // STATS
+      // Both variables of every entry are nonlinear
+      auto pos_end = Q.num_nz_;
+      for (auto i=NLME().NumCols(); i--; ) {
+        for (auto pos=Q.start_[i]; pos!=pos_end; ++pos) {
+          nlv_obj_[i] = true;
+          nlv_obj_[Q.index_[pos]] = true;
+        }
+        pos_end = Q.start_[i];
       }
+      header_.num_nl_vars_in_objs           // STATS: distinct variables
+          = (int)std::count(nlv_obj_.begin(), nlv_obj_.end(), true);
     }
   }
 
